@@ -150,6 +150,10 @@ def life_db(path, ps):
     for i in range(6):
         con.execute("INSERT INTO tsmall VALUES(?,?)", (i + 1, gen.pattern_blob(20 + i, i)))
         con.execute("INSERT INTO tbig VALUES(?,?)", (i + 1, gen.pattern_blob(3 * ps + 7 * i, i)))
+    # empty (not NULL) blobs and texts in front of other columns and other rows: a zero-length slice still has a capacity
+    con.execute("CREATE TABLE tempty(id INTEGER PRIMARY KEY, empty, name, n, tail)")
+    for i in range(6):
+        con.execute("INSERT INTO tempty VALUES(?,?,?,?,?)", (i + 1, b"" if i % 2 == 0 else "", "name%d" % i, 30 + i, bytes([1, 2, i])))
     con.close()
 
 
@@ -185,7 +189,7 @@ def run(tier):
     # lifetime histories on real files
     lifes = []
     for ps in ([512, 4096] if tier == "quick" else [512, 1024, 4096, 65536]):
-        for col in ("small", "big"):
+        for col in ("small", "big", "empty"):
             for rid in (1, 4):
                 p = os.path.join(d, "life-%d-%s-%d.db" % (ps, col, rid))
                 life_db(p, ps)
@@ -204,7 +208,7 @@ def run(tier):
         if m[0] == "life":
             lf = rs.get("life") or {}
             ev = {"ev": "life", "panic": bool(rs.get("panic")) or bool(rs.get("err"))}
-            for k in ("reread_same_handle", "reread_fresh_handle", "string_after_mutate", "other_slice_after_mutate", "after_close", "after_overwrite",
+            for k in ("all_rows_after_mutate", "reread_same_handle", "reread_fresh_handle", "string_after_mutate", "other_slice_after_mutate", "after_close", "after_overwrite",
                       "kept_after_rescan"):
                 ev[k] = bool(lf.get(k))
             events.append(ev)
